@@ -665,7 +665,9 @@ func (blockchain *Blockchain) Commit() abciTypes.ResponseCommit {
 		panic(err)
 	}
 
-	{ // Persist application hash and height
+	{ // Persist application hash, height and the other application records atomically
+		blockchain.appDB.StartBatch()
+
 		blockchain.appDB.SetLastBlockHash(hash)
 		blockchain.appDB.SetLastHeight(height)
 
@@ -674,6 +676,8 @@ func (blockchain *Blockchain) Commit() abciTypes.ResponseCommit {
 		blockchain.appDB.SaveVersions()
 		blockchain.appDB.SaveEmission()
 		blockchain.appDB.SavePrice()
+
+		blockchain.appDB.WriteBatch()
 	}
 
 	// Clear mempool
